@@ -1318,3 +1318,174 @@ class ExtractAffineExact(Contract):
         if shapes_ok:
             cl.append(("constant_plus_einsum_terms_equal_the_function_at_every_point", ra.verdict(T, total, spec)))
         return cl
+
+
+# ==================================================================================================
+@register
+class IntegrateGaussianVariableExact(Contract):
+    """integrate.eager_integrate_gaussian_variable(log_measure, Variable x, {x}) for a Gaussian measure over the single real
+    input x:   integral exp(-1/2 |x P - w|^2) x dx  ==  Z * mu,   Z = exp(log normaliser),  mu = (P P')^-1 P w'
+    entry by entry, reshaped to x's shape, as a Tensor over the integer inputs; for a measure with further real inputs the rule
+    declines (returns None).  The properties _mean, _log_normalizer, _precision_chol, _info_vec are the real ones.
+    shape family: x of shape (1,), (2,), (1,2), (2,1); rank dim..dim+1."""
+
+    props = ("C13",)
+    file = "funsor/integrate.py"
+    qualname = "eager_integrate_gaussian_variable"
+    total = True
+    assumptions = ASSUME
+    ground_backend = BACKEND
+    mutants = (
+        ("information vector instead of the mean", "        loc = log_measure._mean", "        loc = log_measure._info_vec"),
+        ("normaliser not applied", "        data = loc * ops.unsqueeze(ops.exp(log_measure._log_normalizer), -1)", "        data = loc * 1"),
+    )
+
+    def structures(self, tier):
+        for sh in ((1,), (2,), (1, 2), (2, 1)):
+            dim = int(np.prod(sh))
+            for rank in (dim, dim + 1):
+                yield "x=%s,rank=%d" % (list(sh), rank), (sh, rank, False)
+        yield "x=[1],y=[1],rank=2: declines", ((1,), 2, True)
+
+    def build(self, p, st):
+        sh, rank, extra = st
+        dim = int(np.prod(sh)) + (1 if extra else 0)
+        T, a = mk_tower(P=(dim, rank), w=(rank,))
+        ns, ops, G = build_env(T)
+
+        class VarR:
+            def __init__(self, name, dom):
+                self.name, self.dtype, self.output = name, dom.dtype, dom
+
+            def __hash__(self):
+                return hash(self.name)
+
+            def __eq__(self, o):
+                return isinstance(o, VarR) and o.name == self.name
+
+        inputs = OrderedDict(x=Dm("real", sh))
+        if extra:
+            inputs["y"] = R(1)
+        g = G(a["w"], a["P"], inputs)
+        g.input_vars = frozenset(VarR(k, d) for k, d in inputs.items())
+        x = VarR("x", inputs["x"])
+        return Ctx(args=(g, x, frozenset([x])), namespace=dict(ns), T=T, a=a, st=st)
+
+    def ensures(self, ctx, result):
+        sh, rank, extra = ctx.st
+        T, a = ctx.T, ctx.a
+        if extra:
+            return [("declines_when_other_real_inputs_remain", result is None)]
+        if not (isinstance(result, TensorR) and not result.inputs):
+            return [("returns_a_tensor_over_the_integer_inputs", False)]
+        data = np.asarray(result.data, dtype=object)
+        if data.shape != tuple(sh):
+            return [("value_has_the_variables_shape", False)]
+        P, w = a["P"], a["w"]
+        mu = ra.solve_spd(P @ P.T, P @ w).reshape(sh)
+        spec_lin = log_normalizer_spec(T, P, w)
+        ok_c, ok_l = True, True
+        for idx in itertools.product(*map(range, sh)):
+            v = data[idx]
+            if not isinstance(v, ExpV):
+                return [("value_is_normaliser_times_mean", False)]
+            ok_c = ra.verdict(T, v.coef, mu[idx]) and ok_c
+            ok_l = lin_verdict(T, v.lin, spec_lin) and ok_l
+        return [("value_has_the_variables_shape", True), ("every_entry_is_the_mean_entry", ok_c), ("times_the_total_mass", ok_l)]
+
+
+# ==================================================================================================
+class _MomentExact(Contract):
+    """Gaussian.%(name)s for a full-rank factor (rank >= dim), at every real w, P, with Lambda = P P':  %(spec)s.
+    (The properties it reads and the helper _inverse_cholesky are the real ones.)  shape family: dim 1..2, rank dim..dim+1;
+    one batch dim at dim 1."""
+
+    props = ("C13", "C12")
+    file = GFILE
+    total = True
+    assumptions = ASSUME
+    ground_backend = BACKEND
+
+    def structures(self, tier):
+        for dim in (1, 2):
+            for rank in (dim, dim + 1):
+                yield "dim=%d,rank=%d" % (dim, rank), (dim, rank, ())
+        yield "dim=1,rank=2,batch=2", (1, 2, (2,))
+
+    def build(self, p, st):
+        dim, rank, batch = st
+        T, a = mk_tower(P=batch + (dim, rank), w=batch + (rank,))
+        ns, ops, G = build_env(T)
+        g = G(a["w"], a["P"], OrderedDict(x=R(dim)))
+        return Ctx(args=(g,), namespace=ns, T=T, a=a, st=st)
+
+    def ensures(self, ctx, result):
+        dim, rank, batch = ctx.st
+        T, a = ctx.T, ctx.a
+        res = np.asarray(result, dtype=object)
+        ok = True
+        for b in itertools.product(*map(range, batch)):
+            P, w = a["P"][b], a["w"][b]
+            got = res[b] if batch else res
+            ok = self.check(T, got, P, w, dim) and ok
+        return [(self.clause, ok)]
+
+
+def _eye(T, n):
+    return ra.OpsReal(T).new_eye(None, (n,))
+
+
+@register
+class PrecisionExact(_MomentExact):
+    __doc__ = _MomentExact.__doc__ % dict(name="_precision", spec="the value is Lambda")
+    qualname = "Gaussian._precision"
+    clause = "equals_P_times_P_transposed"
+    mutants = (("transposed product", "return self.prec_sqrt @ ops.transpose(self.prec_sqrt, -1, -2)", "return ops.transpose(self.prec_sqrt, -1, -2) @ self.prec_sqrt"),)
+
+    def check(self, T, got, P, w, dim):
+        return ra.verdict(T, got, P @ P.T)
+
+
+@register
+class InfoVecExact(_MomentExact):
+    __doc__ = _MomentExact.__doc__ % dict(name="_info_vec", spec="the value is P w'")
+    qualname = "Gaussian._info_vec"
+    clause = "equals_P_times_white_vec"
+    mutants = (("vector times matrix", "return _mv(self.prec_sqrt, self.white_vec)", "return _vm(self.white_vec, ops.transpose(self.prec_sqrt, -1, -2))[..., ::-1]"),)
+
+    def check(self, T, got, P, w, dim):
+        return ra.verdict(T, got, P @ w)
+
+
+@register
+class MeanExact(_MomentExact):
+    __doc__ = _MomentExact.__doc__ % dict(name="_mean", spec="Lambda times the value equals P w'  (the value is the mode / mean of the normalised density)")
+    qualname = "Gaussian._mean"
+    clause = "precision_times_mean_is_the_information_vector"
+    mutants = (("solved against the factor once only", "return ops.cholesky_solve(self._info_vec[..., None], self._precision_chol)[", "return ops.triangular_solve(self._info_vec[..., None], self._precision_chol)["),)
+
+    def check(self, T, got, P, w, dim):
+        return ra.verdict(T, (P @ P.T) @ got, P @ w)
+
+
+@register
+class CovarianceExact(_MomentExact):
+    __doc__ = _MomentExact.__doc__ % dict(name="_covariance", spec="Lambda times the value is the identity")
+    qualname = "Gaussian._covariance"
+    clause = "precision_times_covariance_is_the_identity"
+    mutants = (("the precision itself", "return ops.cholesky_inverse(self._precision_chol)", "return self._precision"),)
+
+    def check(self, T, got, P, w, dim):
+        return ra.verdict(T, (P @ P.T) @ got, _eye(T, dim))
+
+
+@register
+class ScaleTrilExact(_MomentExact):
+    __doc__ = _MomentExact.__doc__ % dict(name="_scale_tril", spec="the value L is lower triangular and Lambda L L' is the identity (L L' is the covariance)")
+    qualname = "Gaussian._scale_tril"
+    clause = "lower_triangular_square_root_of_the_covariance"
+    mutants = (("square root of the precision", "return _inverse_cholesky(self._precision)", "return ops.cholesky(self._precision)"),)
+
+    def check(self, T, got, P, w, dim):
+        tri = all(got[i, j].is_zero() for i in range(dim) for j in range(i + 1, dim))
+        return tri and ra.verdict(T, (P @ P.T) @ got @ got.T, _eye(T, dim))
